@@ -255,7 +255,7 @@ def write_shards(hs, tag, nshards):
     return files
 
 
-def exec_trace(binary, path, env=None, timeout=1200):
+def exec_trace(binary, path, env=None, timeout=400):
     try:
         r = subprocess.run([binary, path], stdout=subprocess.PIPE, stderr=subprocess.PIPE, text=True, timeout=timeout,
                            env=dict(os.environ, **(env or {})))
